@@ -100,9 +100,11 @@ Record c09_entity := { c9e_id : id;             (* id of the item (of the enum, 
                        c9e_generics : list str;
                        c9e_kind : c09_kind }.
 
-Definition c09_decmap_has (k : deckind) (w : str) (m : decmap) : bool :=
-  existsb (fun kv => deckind_eqb (fst kv) k && mem_str w (snd kv)) m.
-Definition c09_alias_inline (a : ralias) : bool := c09_decmap_has DKKotlin (lit "JvmInline") (adecs a).
+(* #[typeshare(kotlin = "JvmInline")]: the decorator set recorded under the key Kotlin contains JvmInline *)
+Fixpoint c09_decmap_get (k : deckind) (m : decmap) : option (list str) :=
+  match m with [] => None | (a, v) :: r => if deckind_eqb a k then Some v else c09_decmap_get k r end.
+Definition c09_alias_inline (a : ralias) : bool :=
+  match c09_decmap_get DKKotlin (adecs a) with Some v => mem_str (lit "JvmInline") v | None => false end.
 
 Definition c09_enum_kind (e : renum) : c09_kind := match e with EUnit _ => C9KUnitEnum | EAlgebraic _ _ _ => C9KAlgEnum end.
 Definition c09_enum_entities (e : renum) : list c09_entity :=
@@ -336,12 +338,10 @@ Definition c09_first {A} (l : list (option A)) : option A :=
 
 (* all classes a program falls into, from the INPUT alone *)
 Definition c09_tpos_classes (L : lang) (acrs : list str) (pd : parsed) (tp : c09_tpos) : list (option string) :=
-  flat_map (fun fi => let '(form, i) := fi in
-              if mem_str i (c9t_generics tp) then []
-              else match c09_lookup pd i with
-                   | Some e => [c09_type_site_class L form (c9t_pos tp) e; c09_acronym_class L acrs (c9t_pos tp) e]
-                   | None => []
-                   end) (c09_type_ids (c9t_type tp)).
+  flat_map (fun fi => match c09_lookup pd (snd fi) with
+                      | Some e => [c09_type_site_class L (fst fi) (c9t_pos tp) e; c09_acronym_class L acrs (c9t_pos tp) e]
+                      | None => []
+                      end) (c09_type_ids (c9t_type tp)).
 Definition c09_classes (L : lang) (pfx : str) (acrs : list str) (pd : parsed) : list (option string) :=
   flat_map (c09_tpos_classes L acrs pd) (c09_tposs pd) ++
   flat_map (fun e => match c9e_kind e with
